@@ -14,7 +14,7 @@ from . import build
 from .terms import Term, canon, from_json, to_json
 
 BLANK = {"e": "", "F": [], "cleanup": True, "fixed": [], "f": "", "kwargs": [], "results": [], "loaded": [], "cls": "", "msg": "", "args": [], "attributed": False, "disk": [], "linputs": [], "ldefaults": [], "shapes": [],
-         "storage_in": [], "storage_out": [], "mapspecs_in": [], "mapspecs_out": [], "proc": "", "fixedraw": [], "new_inputs": [], "cache": False}
+         "storage_in": [], "storage_out": [], "mapspecs_in": [], "mapspecs_out": [], "proc": "", "fixedraw": [], "new_inputs": [], "cache": False, "func": {}}
 
 
 def ev(**kw) -> dict:
@@ -101,7 +101,7 @@ def tla_desc_to_py(d: dict) -> dict:
                       "defaults": {p: v for p, v in f["defaults"]}, "bound": {p: v for p, v in f["bound"]},
                       "mapspec": ms_string(f["ms"]) if f["has_ms"] else None,
                       "internal_shape": list(f.get("internal", [])), "cache": bool(f.get("cache", False)),
-                      "retnone": bool(f.get("retnone", False)), "rescpus": f.get("rescpus") or ""})
+                      "retnone": bool(f.get("retnone", False)), "rescpus": f.get("rescpus") or "", "impl": f.get("impl") or ""})
     return {"funcs": funcs}
 
 
